@@ -326,6 +326,14 @@ func Main(t *testing.T, w World) {
 		rep.VirtualS += float64(res.Stats.VirtualNs) / 1e9
 		if res.Stats.Truncated {
 			rep.Truncated++
+			if len(res.Stats.FaultsFired) == 0 {
+				// a run that does not finish although nothing was injected deserves a look (a request
+				// that is never answered looks exactly like this)
+				rep.Probes["truncated-without-fault"]++
+				if len(rep.StuckSamples) < 3 {
+					rep.StuckSamples = append(rep.StuckSamples, fmt.Sprintf("index %d seed %d: cut off after %d steps, no fault fired; %v", i, c.Seed, res.Stats.Steps, res.Stats.StuckInfo))
+				}
+			}
 		}
 		if res.Stats.Stuck {
 			rep.Stuck++
